@@ -29,11 +29,12 @@ static void reentrant_free(void *p);
 static std::string g_prop = "C05"; // "C03": the same driver run for the poisoning clause of C03 across threads (only poison verdicts are armed)
 
 // POISON: the policy has poison/unpoison/unpoison_expand callbacks (each one a scheduling point) and keeps a byte shadow
-template<bool POISON>
+// GEOM 0: 4K slabs, classes 8..128 (classes run empty at once); GEOM 1: 32K slabs, classes 8..8192 (size classes of a page and more)
+template<bool POISON, int GEOM = 0>
 struct SPolicyT {
 	static constexpr bool poisoning = POISON;
-	static constexpr size_t pagesize = 0x1000, slabsize = 0x1000, sb_size = 0x1000;
-	static constexpr int num_buckets = 5; // classes 8..128; larger requests get their own reservation
+	static constexpr size_t pagesize = 0x1000, slabsize = GEOM ? 0x8000 : 0x1000, sb_size = GEOM ? 0x8000 : 0x1000;
+	static constexpr int num_buckets = GEOM ? 11 : 5; // larger requests get their own reservation
 	void no_lock(const char *cb) {
 		if(sched::SchedMutex::held_by_me() && !g_ps->bad) { g_ps->bad = true; g_ps->why = strf("policy-called-with-pool-lock:%s|Policy::%s entered while the calling worker holds %d pool mutex(es)", cb, cb, sched::SchedMutex::held_by_me()); }
 	}
@@ -96,9 +97,9 @@ struct Mon {
 
 static uint8_t pat_byte(uint64_t pat, size_t i) { return (uint8_t)((pat >> ((i % 8) * 8)) ^ (i * 37)); }
 
-template<bool POISON>
+template<bool POISON, int GEOM = 0>
 struct Ctx {
-	using Pool = frg::slab_pool<SPolicyT<POISON>, sched::SchedMutex>;
+	using Pool = frg::slab_pool<SPolicyT<POISON, GEOM>, sched::SchedMutex>;
 	Pool *pool; Mon mon; PolState ps;
 	static size_t owned(const Block &b) { return POISON ? b.req : b.size; } // with a poisoning policy only the requested bytes are the caller's
 	void poison_check(uintptr_t a, const Block &b, const char *when) {
@@ -145,14 +146,15 @@ struct Ctx {
 
 // script op: kind 0 alloc(size)->slot, 1 free(slot), 2 deallocate(slot), 3 realloc(slot,size)
 struct Op { int kind; int slot; size_t size; };
-struct Scenario { const char *name; std::vector<std::pair<int, size_t>> prefill; /* (slot, size) */ std::vector<std::vector<Op>> workers; int nslots; bool reentrant = false; bool poison = false; int quick_bound = 3; long fail_at = -1; };
+struct Scenario { const char *name; std::vector<std::pair<int, size_t>> prefill; /* (slot, size) */ std::vector<std::vector<Op>> workers; int nslots; bool reentrant = false; bool poison = false; int quick_bound = 3; long fail_at = -1; int geom = 0; };
 
-template<bool POISON>
+template<bool POISON, int GEOM = 0>
 static void run_world_t(const char *mode, long long idx, const Scenario &sc, sched::Strategy &strat) {
 	begin_case(mode, idx);
-	Ctx<POISON> cx; g_ps = &cx.ps; sched::g_smx = {};
-	SPolicyT<POISON> pol;
-	cx.pool = new typename Ctx<POISON>::Pool(pol);
+	Ctx<POISON, GEOM> cx; g_ps = &cx.ps; sched::g_smx = {};
+	SPolicyT<POISON, GEOM> pol;
+	cx.pool = new typename Ctx<POISON, GEOM>::Pool(pol);
+	if(GEOM) count("schedules_with_page_sized_classes");
 	g_reentrant = sc.reentrant; t_policy_depth = 0;
 	cx.ps.fail_at = sc.fail_at;
 	if(sc.fail_at >= 0) count("schedules_with_an_injected_map_failure");
@@ -202,13 +204,17 @@ static void run_world_t(const char *mode, long long idx, const Scenario &sc, sch
 	if(out.kind == sched::Outcome::Ok) delete cx.pool;
 	g_ps = nullptr; g_pool_alloc = nullptr; g_pool_free = nullptr; g_reentrant = false;
 }
-static void run_world(const char *mode, long long idx, const Scenario &sc, sched::Strategy &strat) { if(sc.poison) run_world_t<true>(mode, idx, sc, strat); else run_world_t<false>(mode, idx, sc, strat); }
+static void run_world(const char *mode, long long idx, const Scenario &sc, sched::Strategy &strat) {
+	if(sc.geom) { if(sc.poison) run_world_t<true, 1>(mode, idx, sc, strat); else run_world_t<false, 1>(mode, idx, sc, strat); }
+	else { if(sc.poison) run_world_t<true>(mode, idx, sc, strat); else run_world_t<false>(mode, idx, sc, strat); }
+}
 
 static std::vector<Scenario> scenarios() {
 	// per slab of the 128-byte class on this geometry: (4096 - overhead 128) / 128 = 31 objects; 64-byte class: 62
 	std::vector<std::pair<int, size_t>> full128; for(int i = 0; i < 31; i++) full128.push_back({i < 4 ? i : -1, 128});
 	std::vector<std::pair<int, size_t>> almost128; for(int i = 0; i < 30; i++) almost128.push_back({i < 4 ? i : -1, 128});
 	std::vector<std::pair<int, size_t>> few128; for(int i = 0; i < 4; i++) few128.push_back({i, 128});
+	std::vector<std::pair<int, size_t>> big4; for(int i = 0; i < 4; i++) big4.push_back({i, 8192}); // two slabs: three objects + one
 	return {
 		{"both-find-class-empty", {}, {{{0, 0, 64}, {1, 0, 0}}, {{0, 1, 64}, {1, 1, 0}}}, 4},
 		{"both-find-class-empty-then-free-cross", {}, {{{0, 0, 64}, {0, 2, 64}, {1, 1, 0}}, {{0, 1, 64}, {1, 0, 0}}}, 4},
@@ -219,6 +225,9 @@ static std::vector<Scenario> scenarios() {
 		{"three-workers-one-class", {}, {{{0, 0, 32}, {1, 0, 0}}, {{0, 1, 32}, {1, 1, 0}}, {{0, 2, 32}, {1, 2, 0}}}, 4},
 		{"reentrant-policy:both-find-class-empty", {}, {{{0, 0, 64}, {1, 0, 0}}, {{0, 1, 64}, {1, 1, 0}}}, 4, true},
 		{"reentrant-policy:large-alloc-and-free", {}, {{{0, 0, 5000}, {1, 0, 0}}, {{0, 1, 24}, {0, 2, 9000}, {1, 2, 0}}}, 4, true},
+		// size classes of a page and more (32K slabs hold three 8192-byte objects): slabs of such a class becoming empty, full, partial
+		{"big-class:last-object-of-a-non-head-slab-freed-while-other-allocates", big4, {{{1, 3, 0}, {0, 5, 8192}}, {{0, 4, 8192}, {1, 0, 0}, {1, 1, 0}}}, 8, false, false, 3, -1, 1},
+		{"big-class:both-find-class-empty", {}, {{{0, 0, 4096}, {1, 0, 0}}, {{0, 1, 4000}, {1, 1, 0}}}, 4, false, true, 3, -1, 1},
 		// an injected map() failure (the failing call is a scheduling point: the other worker runs while map() is "trying"): the call
 		// that needed the memory may return null, nothing may break and the pool must keep working once map() works again
 		{"fault:new-slab-map-fails-while-other-frees-same-class", full128, {{{0, 4, 128}, {0, 5, 128}, {0, 6, 128}, {1, 4, 0}}, {{1, 0, 0}, {0, 7, 128}}}, 8, false, false, 3, 1},
@@ -266,13 +275,13 @@ int main(int argc, char **argv) {
 			uint64_t cs = sr.next();
 			if(!want_case(i)) continue;
 			Rng r(cs);
-			Scenario sc; sc.name = "random-scripts"; sc.nslots = 12; sc.reentrant = r.chance(1, 3); sc.poison = (g_prop == "C03") || r.chance(1, 2); if(g_prop == "C04" || r.chance(1, 4)) sc.fail_at = r.below(4);
+			Scenario sc; sc.name = "random-scripts"; sc.nslots = 12; sc.reentrant = r.chance(1, 3); sc.poison = (g_prop == "C03") || r.chance(1, 2); if(g_prop == "C04" || r.chance(1, 4)) sc.fail_at = r.below(4); sc.geom = r.chance(1, 3);
 			int nw = 2 + r.below(2);
 			for(size_t k = r.below(3) ? 0 : 28 + r.below(5); k; k--) sc.prefill.push_back({k <= 4 ? (int)k - 1 : -1, 128});
 			sc.workers.resize(nw);
 			for(auto &ws : sc.workers) for(size_t k = 2 + r.below(7); k; k--) {
 				int z = r.below(10); int slot = r.below(sc.nslots);
-				size_t size = r.pick(std::vector<size_t>{1, 8, 64, 128, 128, 128, 129, 3000, 4096, 9000});
+				size_t size = sc.geom ? r.pick(std::vector<size_t>{8, 128, 4096, 4096, 8192, 8192, 8192, 2049, 9000, 40000}) : r.pick(std::vector<size_t>{1, 8, 64, 128, 128, 128, 129, 3000, 4096, 9000});
 				ws.push_back(z < 5 ? Op{0, slot, size} : z < 7 ? Op{1, slot, 0} : z < 9 ? Op{2, slot, 0} : Op{3, slot, size});
 			}
 			// an alloc into an occupied slot would leak a live block from the monitor's view: scripts free the slot first
